@@ -158,5 +158,46 @@ F6Keys ==
 F6Case == ProjectCase("fk-nested", [def |-> "en", locs |-> <<"en">>, inh |-> << >>, vals |-> [en |-> F6Keys]],
                       [k \in DOMAIN F6Keys |-> k], "none")
 
-Families == {F2Case, F3Plural, F6Case} \cup F3Cases \cup F5Cases
+\* F7: arm shapes.  Every range target whose three arms are drawn from {literal, variable, count, component around the variable}
+\* (the second locale holds the rotated triple, so the signature is a union), every plural target whose two forms are drawn from
+\* the same shapes, and for each target six referrers: bare; followed / preceded by the referrer's own {{ x }}; a component using
+\* x before and the variable after; x bound by the reference (the referrer's own x stays free); count renamed.
+ArmTriples == "pairs"          \* "pairs": 16 triples covering every (first, second) pair; "all": 64 (overridden by the thorough cfg)
+Shapes4 == << <<T(<<"l">>)>>, <<V(X)>>, <<V(Cnt)>>, <<Comp(<<"b">>, <<V(X)>>)>> >>
+D(n) == ToString(n)
+Triples == IF ArmTriples = "all" THEN { <<a, b, c>> : a \in 1..4, b \in 1..4, c \in 1..4 }
+           ELSE { <<a, b, ((a + b) % 4) + 1>> : a \in 1..4, b \in 1..4 }
+PairsF == { <<a, b>> : a \in 1..4, b \in 1..4 }
+RangeT(t) == [k |-> "ranges", ty |-> "i32", ck |-> Cnt,
+              b |-> << [alts |-> <<Exact(3)>>,   v |-> <<T(<<"z","COLON">>)>> \o Shapes4[t[1]]],
+                       [alts |-> <<Incl(4, 5)>>, v |-> <<T(<<"f","COLON">>)>> \o Shapes4[t[2]]],
+                       [alts |-> <<Wild>>,       v |-> <<T(<<"o","COLON">>)>> \o Shapes4[t[3]]] >>]
+PluralT(t) == [k |-> "plurals", ty |-> "cardinal", ck |-> Cnt,
+               forms |-> [one |-> <<T(<<"o","n","e","SP">>)>> \o Shapes4[t[1]], other |-> <<T(<<"m","a","n","y","SP">>)>> \o Shapes4[t[2]]]]
+RSym(t) == <<"r", D(t[1]), D(t[2]), D(t[3])>>
+PSymT(t) == <<"p", D(t[1]), D(t[2])>>
+RefShape(n, tgt) ==
+    CASE n = 1 -> <<Fk(tgt, <<>>)>>
+      [] n = 2 -> <<Fk(tgt, <<>>), T(<<"SP">>), V(X)>>
+      [] n = 3 -> <<V(X), T(<<"SP">>), Fk(tgt, <<>>)>>
+      [] n = 4 -> <<Comp(<<"b">>, <<V(X)>>), T(<<"SP">>), Fk(tgt, <<>>), T(<<"SP">>), V(X)>>
+      [] n = 5 -> <<Fk(tgt, <<ArgP(X, <<T(<<"A">>)>>)>>), T(<<"SP">>), V(X)>>
+      [] OTHER -> <<Fk(tgt, <<ArgP(Cnt, <<V(M1)>>)>>), T(<<"SP">>), V(X)>>
+Rot3(t) == <<t[2], t[3], t[1]>>
+Rot2(t) == <<t[2], t[1]>>
+F7Vals(l) ==
+    LET tr(t) == IF l = "en" THEN t ELSE Rot3(t)
+        tp(t) == IF l = "en" THEN t ELSE Rot2(t)
+        targets == [ id \in { Str(RSym(t)) : t \in Triples } |-> RangeT(tr(CHOOSE t \in Triples : Str(RSym(t)) = id)) ]
+        ptargets == [ id \in { Str(PSymT(t)) : t \in PairsF } |-> PluralT(tp(CHOOSE t \in PairsF : Str(PSymT(t)) = id)) ]
+        refs == [ id \in { Str(<<"u", D(n)>> \o RSym(t)) : n \in 1..6, t \in Triples } |->
+                    LET c == CHOOSE c \in (1..6) \X Triples : Str(<<"u", D(c[1])>> \o RSym(c[2])) = id IN Val(RefShape(c[1], RSym(c[2]))) ]
+        prefs == [ id \in { Str(<<"v", D(n)>> \o PSymT(t)) : n \in 1..6, t \in PairsF } |->
+                    LET c == CHOOSE c \in (1..6) \X PairsF : Str(<<"v", D(c[1])>> \o PSymT(c[2])) = id IN Val(RefShape(c[1], PSymT(c[2]))) ] IN
+    targets @@ ptargets @@ refs @@ prefs
+F7Case == LET vals == [l \in {"en", "fr"} |-> F7Vals(l)] IN
+          ProjectCase("fk-arm-shapes", [def |-> "en", locs |-> <<"en", "fr">>, inh |-> << >>, vals |-> vals],
+                      [k \in DOMAIN vals["en"] |-> k], "none")
+
+Families == {F2Case, F3Plural, F6Case, F7Case} \cup F3Cases \cup F5Cases
 =============================================================================
